@@ -187,7 +187,17 @@ def run_lines(ctx, exe, lines, timeout):
     guard = 0
     while start < len(lines) and guard < 50:
         guard += 1
-        r = ctx.run(exe, "\n".join(lines[start:]) + "\n", timeout=timeout)
+        try:
+            r = ctx.run(exe, "\n".join(lines[start:]) + "\n", timeout=timeout)
+        except OSError:
+            # the binary cache was cleaned under our feet (a concurrent cold-cache run): build it again
+            rebuild = REBUILD.get(exe)
+            if rebuild is None:
+                raise vlib.BuildError("harness binary %s vanished" % exe)
+            exe2 = rebuild()
+            REBUILD[exe2] = rebuild
+            exe = exe2
+            r = ctx.run(exe, "\n".join(lines[start:]) + "\n", timeout=timeout)
         cur = None
         for line in r.out.splitlines():
             if line.startswith("C "):
@@ -221,6 +231,18 @@ def run_lines(ctx, exe, lines, timeout):
 
 
 SKIPPED = "skipped: not run after an earlier case of the same batch hung"
+REBUILD = {}    # path of a harness binary -> function that builds it again
+
+
+def mrun(ctx, mexe, text, timeout=600):
+    """run the extracted model driver; re-extract once if the build directory was cleaned meanwhile"""
+    try:
+        return ctx.run(mexe, text, timeout=timeout)
+    except OSError:
+        rebuild = REBUILD.get(mexe)
+        if rebuild is None:
+            raise vlib.BuildError("model driver %s vanished" % mexe)
+        return ctx.run(rebuild(), text, timeout=timeout)
 
 
 def parse_tagged(line, tags):
@@ -253,7 +275,7 @@ def eval_k(ctx, exe1, mexe, cases, stats, reads="lower"):
     for c in cases:
         b = k_body_model(c)
         minp += ["K 3 " + b, "K 2 " + b, "K 1 " + b, "K 0 " + b]
-    mr = ctx.run(mexe, "\n".join(minp) + "\n", timeout=600)
+    mr = mrun(ctx, mexe, "\n".join(minp) + "\n", timeout=600)
     mlines = mr.out.splitlines()
     if mr.rc != 0 or len(mlines) != len(minp):
         raise vlib.BuildError("model driver failed: rc=%s %s" % (mr.rc, mr.err[-400:]))
@@ -300,7 +322,7 @@ def eval_k(ctx, exe1, mexe, cases, stats, reads="lower"):
                        + " ".join(frac_token(x) for x in tr))
         spec_idx.append(i)
     if spec_in:
-        sr = ctx.run(mexe, "\n".join(spec_in) + "\n", timeout=600)
+        sr = mrun(ctx, mexe, "\n".join(spec_in) + "\n", timeout=600)
         sl = sr.out.splitlines()
         if sr.rc != 0 or len(sl) != len(spec_in):
             raise vlib.BuildError("spec driver failed: rc=%s %s" % (sr.rc, sr.err[-400:]))
@@ -366,7 +388,7 @@ def k_spec_fails(ctx, exe1, mexe, c, reads="lower"):
     if reads == "upper":
         lhs = [lhs[j * D + k] for k in range(D) for j in range(D)]
         rhs = [rhs[j * D + k] for k in range(D) for j in range(D)]
-    sr = ctx.run(mexe, "S " + k_body_model(c) + " " + " ".join(frac_token(x) for x in lhs) + " "
+    sr = mrun(ctx, mexe, "S " + k_body_model(c) + " " + " ".join(frac_token(x) for x in lhs) + " "
                  + " ".join(frac_token(x) for x in rhs) + "\n", timeout=60)
     return sr.out.strip() != "spec 1"
 
@@ -437,7 +459,7 @@ def eval_j(ctx, exe1, mexe, cases, stats):
         ml.append("J %d %d %d %s %s" % (N, D, d, " ".join(frac_token(v) for r in X for v in r),
                                        " ".join(frac_token(v) for r in P for v in r)))
     res, info = run_lines(ctx, exe1, il, timeout=60 + len(il) // 10)
-    mr = ctx.run(mexe, "\n".join(ml) + "\n", timeout=300)
+    mr = mrun(ctx, mexe, "\n".join(ml) + "\n", timeout=300)
     mo = mr.out.splitlines()
     if mr.rc != 0 or len(mo) != len(cases):
         raise vlib.BuildError("model driver failed on the J stream: rc=%s %s" % (mr.rc, mr.err[-300:]))
@@ -960,6 +982,9 @@ def build_all(ctx):
     for name in ("exe1", "exe2", "mexe"):
         if name in err:
             raise err[name]
+    REBUILD[out["mexe"]] = lambda: ctx.extract()
+    REBUILD[out["exe1"]] = lambda: ctx.cpp("harness/c10.cpp", name="c10_p1", defines=["C10_PART=1"], extra=["-g0"])
+    REBUILD[out["exe2"]] = lambda: ctx.cpp("harness/c10.cpp", name="c10_p2", defines=["C10_PART=2"], extra=["-g0"])
     return out["exe1"], out["exe2"], out["mexe"]
 
 
@@ -1068,7 +1093,7 @@ def replay(ctx, case):
         eval_k(ctx, exe1, mexe, [case], stats)
         res, info = run_lines(ctx, exe1, [k_line_impl(case)], 120)
         print("implementation:", (res[0] or str(info[0]))[:600])
-        mr = ctx.run(mexe, "K 3 " + k_body_model(case) + "\nP " + k_body_model(case) + "\n")
+        mr = mrun(ctx, mexe, "K 3 " + k_body_model(case) + "\nP " + k_body_model(case) + "\n")
         print("model / reference pencil:", mr.out[:800])
     elif kind == "G":
         eval_g(ctx, exe1, [case], stats)
